@@ -265,6 +265,8 @@ def judge_summary(sd, ni, text, atts):
             return "label: does not match node_is_minimal"
         for l in ls[1:]:
             st = l.lstrip(".")
+            if len(st) != len(names) or any(c not in "01" for c in st):
+                return "state: a listed line is not a state of the network: " + st[:40]
             state = {names[i]: int(c) for i, c in enumerate(st)}
             s = ni.st(state)
             idx = [k for k, a in enumerate(atts) if s in a]
